@@ -70,6 +70,13 @@ func genC14(rt *rapid.T) C14Scenario {
 	for i := 0; i < np; i++ {
 		s.Parallel = append(s.Parallel, genReq(rt, fmt.Sprintf("p%d", i), false))
 	}
+	if s.Subject.Result.Complexity > 0 && rapid.Bool().Draw(rt, "twin?") {
+		// a request of the same family translated while the subject is between two portions of its plan
+		twin := s.Subject
+		twin.Query = rapid.SampledFrom(traceQLs).Draw(rt, "twin.q")
+		twin.Result.Complexity = int64(rapid.SampledFrom([]int{0, 2}).Draw(rt, "twin.portions")) * 10000000
+		s.Parallel = append(s.Parallel, twin)
+	}
 	// live tailing is defined for log queries (stream selector + pipeline) only
 	if (s.Subject.Kind == "query_range" || s.Subject.Kind == "query") && strings.HasPrefix(strings.TrimSpace(s.Subject.Query), "{") {
 		s.TailTicks = rapid.IntRange(0, 4).Draw(rt, "ticks")
